@@ -300,3 +300,121 @@ pub fn spine_trees(max_len: usize) -> Vec<(E, String)> {
     }
     out
 }
+
+/// Two primaries of the same kind with different constants as siblings under every operator (and
+/// negated, and next to a third primary): a pass that folds siblings of one kind into a single
+/// comparison (two `-perm /A`, two sizes, two ages, two `-type` lists, two ids) is right under
+/// some operators and wrong under others.
+pub fn sibling_pairs() -> Vec<E> {
+    let mut fam: Vec<Vec<E>> = vec![];
+    let t = |x: Tst| E::T(x);
+    let mut perms = vec![];
+    for k in [PKind::Equal, PKind::AtLeast, PKind::Any] {
+        for m in [0o400u32, 0o040, 0o644, 0o111, 0o4000, 0] {
+            perms.push(t(Tst::Perm(k, m)));
+        }
+    }
+    fam.push(perms);
+    let mut sizes = vec![];
+    for (c, n, u) in [(Cmp::Gt, 1u64, SUnit::K), (Cmp::Lt, 2, SUnit::K), (Cmp::Gt, 2, SUnit::K), (Cmp::Lt, 1, SUnit::M), (Cmp::Eq, 1, SUnit::K), (Cmp::Gt, 1024, SUnit::C), (Cmp::Lt, 4, SUnit::B), (Cmp::Gt, 0, SUnit::G)] {
+        sizes.push(t(Tst::Size(c, n, u)));
+    }
+    fam.push(sizes);
+    for w in [Which::A, Which::M] {
+        let mut times = vec![];
+        for (c, n, u) in [(Cmp::Gt, 1u64, TUnit::D), (Cmp::Lt, 2, TUnit::D), (Cmp::Gt, 1440, TUnit::M), (Cmp::Lt, 48, TUnit::H), (Cmp::Eq, 1, TUnit::D), (Cmp::Gt, 60, TUnit::S), (Cmp::Lt, 1, TUnit::M)] {
+            times.push(t(Tst::Time(w, c, n, u)));
+        }
+        fam.push(times);
+    }
+    fam.push(vec![t(Tst::Type(vec![FT::F])), t(Tst::Type(vec![FT::D])), t(Tst::Type(vec![FT::F, FT::D])), t(Tst::Type(vec![FT::L, FT::F])), t(Tst::Type(FT::ALL.to_vec()))]);
+    fam.push(vec![t(Tst::Uid(Cmp::Gt, 0)), t(Tst::Uid(Cmp::Lt, 1000)), t(Tst::Uid(Cmp::Eq, 0)), t(Tst::Uid(Cmp::Gt, 1000)), t(Tst::Uid(Cmp::Eq, 1000))]);
+    fam.push(vec![t(Tst::Links(Cmp::Gt, 1)), t(Tst::Links(Cmp::Lt, 3)), t(Tst::Links(Cmp::Eq, 2)), t(Tst::Links(Cmp::Gt, 2))]);
+    fam.push(vec![t(Tst::Name(s("a*"))), t(Tst::Name(s("*b"))), t(Tst::Name(s("ab"))), t(Tst::IName(s("AB"))), t(Tst::IName(s("a*"))), t(Tst::Path(s("a*"))), t(Tst::Name(s("*")))]);
+    fam.push(vec![t(Tst::Xattr(s("user.tag"))), t(Tst::XattrMatch(s("user.tag"), s("v1"))), t(Tst::XattrMatch(s("user.tag"), s("v*"))), t(Tst::Xattr(s("tag"))), t(Tst::Pool(s("flash"))), t(Tst::Pool(s("ssd")))]);
+    let mut out = vec![];
+    let third = [E::A(Act::Print), E::T(Tst::Name(s("z*"))), E::A(Act::Printf(vec![FEl::F(Fld::PermOctal), FEl::Lit(s(" ")), FEl::F(Fld::NameNoStart), FEl::E(Esc::Newline)]))];
+    for f in &fam {
+        for (i, a) in f.iter().enumerate() {
+            for (j, b) in f.iter().enumerate() {
+                if i == j {
+                    continue;
+                }
+                let (a, b) = (a.clone(), b.clone());
+                out.push(E::and(a.clone(), b.clone()));
+                out.push(E::or(a.clone(), b.clone()));
+                out.push(E::list(a.clone(), b.clone()));
+                out.push(E::and(E::not(a.clone()), b.clone()));
+                out.push(E::or(a.clone(), E::not(b.clone())));
+                out.push(E::not(E::list(a.clone(), b.clone())));
+                let c = third[(i + j) % third.len()].clone();
+                out.push(E::and(E::list(a.clone(), b.clone()), c.clone()));
+                out.push(E::or(E::and(c.clone(), a.clone()), b.clone()));
+                out.push(E::list(E::or(a, c), b));
+            }
+        }
+    }
+    out
+}
+
+/// Context leaves: every kind of the palette plus one formatted print per supported directive
+/// (a directive may leave something behind in the compiler that a later primary picks up).
+pub fn context_leaves() -> Vec<E> {
+    let mut v = supported_kinds();
+    for f in crate::gen::supported_fields() {
+        v.push(E::A(Act::Printf(vec![FEl::F(f.clone()), FEl::Lit(s(" ")), FEl::F(Fld::NameNoStart), FEl::E(Esc::Newline)])));
+    }
+    for f in [Fld::PermOctal, Fld::Kilos, Fld::Blocks, Fld::Bytes, Fld::ModifyFmt('@'), Fld::XAttr(s("user.tag"))] {
+        v.push(E::A(Act::FPrintf(s("ctx.out"), vec![FEl::F(f), FEl::E(Esc::Newline)])));
+        
+    }
+    for e in [Esc::Clear, Esc::Null, Esc::Ascii(0o101)] {
+        v.push(E::A(Act::Printf(vec![FEl::F(Fld::NameNoStart), FEl::E(Esc::Newline), FEl::E(e)])));
+    }
+    v
+}
+
+/// (context, subject) in five arrangements: the subject after the context under ',' / and / or,
+/// the other order, and with something in between
+pub fn pair_skeleton(k: usize, c: E, sb: E) -> E {
+    match k % 5 {
+        0 => E::list(c, sb),
+        1 => E::and(c, sb),
+        2 => E::or(c, sb),
+        3 => E::list(sb, c),
+        _ => E::and(E::list(c, E::T(Tst::True)), sb),
+    }
+}
+
+/// Every (context leaf, subject leaf) pair under [`pair_skeleton`]; the seed-selected 1/denom slice.
+pub fn run_pairs<J, K>(seed: u64, contexts: &[E], subjects: &[E], denom: u64, judge: J, to_json: K) -> Stats
+where
+    J: Fn(&E) -> Verdict + Sync,
+    K: Fn(&E) -> Value + Sync,
+{
+    let shards = 32usize;
+    let mut st = run_shards(shards, |shard| {
+        let mut st = Stats::new();
+        for (i, c) in contexts.iter().enumerate() {
+            if i % shards != shard {
+                continue;
+            }
+            for (j, sb) in subjects.iter().enumerate() {
+                for k in 0..5 {
+                    if denom > 1 && stable_hash(&(i, j, k, 0xc0u8)).wrapping_add(seed) % denom != 0 {
+                        continue;
+                    }
+                    let tree = pair_skeleton(k, c.clone(), sb.clone());
+                    let v = match judge(&tree) {
+                        Verdict::Pass { .. } => Verdict::Pass { nt: c != sb, class: "context pair (a leaf after every kind of other leaf)" },
+                        o => o,
+                    };
+                    st.record(&v, stable_hash(&tree), true, || to_json(&tree));
+                }
+            }
+        }
+        st
+    });
+    st.exhaustive_parts.push(format!("context pairs: {} context leaves (the palette and one formatted print per supported directive) x {} subject leaves x 5 arrangements, {}", contexts.len(), subjects.len(), if denom <= 1 { "all of them".to_string() } else { format!("the seed-selected 1/{denom} slice") }));
+    st
+}
